@@ -74,7 +74,7 @@ Theorem C24_single_run_exact pm cfg nomsg nofail fs wp o :
                     ++ pick (spec_forward pm true nomsg [] wp) wp
   /\ (forall s, In s (o_unmatched o) <->
                 c_info cfg = true /\ nomsg <> [] /\ should_report pm (c_filters cfg) (c_inline cfg) final (map f_path fs) s)
-  /\ o_status o = if findings_raise pm nomsg nofail fs wp || negb (is_nil_list (o_unmatched o))
+  /\ o_status o = if findings_raise pm nomsg nofail fs wp || um_raise pm nofail (o_unmatched o)
                   then c_exitcode cfg else 0.
 Proof. exact (whole_run_single_spec pm cfg nomsg nofail fs wp o). Qed.
 Print Assumptions C24_single_run_exact.
